@@ -204,6 +204,16 @@ func selftest(verbose bool) error {
 	for _, tc := range []struct {
 		fn  string
 		bad bool
+	}{{"CtxOk", false}, {"CtxBad", true}} {
+		f := u.Func(fx, tc.fn)
+		if f == nil {
+			return fmt.Errorf("fixture %s missing", tc.fn)
+		}
+		expect("goctx/"+tc.fn, len(cancelledContextEscapes(f)) > 0, tc.bad)
+	}
+	for _, tc := range []struct {
+		fn  string
+		bad bool
 	}{{"IncOk", false}, {"IncBad", true}} {
 		f := u.Method(fx, "counter", tc.fn)
 		if f == nil {
